@@ -10,7 +10,7 @@ From Verif Require Import Common.Base.
 From Verif Require Import Generated.C15Recv Generated.C15GrpcExp Generated.C15HttpExp Generated.C15StatusUtil.
 From Verif Require Import C15.Model.
 From Verif Require Export C15.Harness.
-From Verif Require Export Generated.C15RecvHttpGraph Generated.C15ErrorsGraph.
+From Verif Require Export Generated.C15RecvHttpGraph Generated.C15ErrorsGraph Generated.C15DecodersGraph.
 Local Open Scope Z_scope.
 
 Inductive form :=
@@ -221,6 +221,18 @@ Definition slow_form (t write_ms hold_ms items : Z) (o : outcome) (obs : list Z)
   | _ => FFalse
   end.
 
+(* a hop to a receiver with an explicit compression_algorithms list: a compression offered by both sides delivers like
+   any hop; one the receiver does not list is refused as a client error (never consumed, permanent for the sender) *)
+Definition offered (algs : list Z) (comp : Z) : bool := (0 <=? comp) && (comp <=? 6) && existsb (Z.eqb comp) algs.
+
+Definition cfg_form (algs : list Z) (comp t items : Z) (o : outcome) (obs : list Z) : form :=
+  match obs with
+  | [called; verdict; _; _; sink_n; _] =>
+      if (t =? 0) || offered algs comp then hop_form t 0 items o obs
+      else FAnd (FEq called 0) (FAnd (FEq sink_n 0) (FEq verdict 1))
+  | _ => FFalse
+  end.
+
 (* the clauses a correspondence case must satisfy (FTrue for the kinds that only tie tables) *)
 Definition clause_of_case (c : nat * (list Z * list Z)) : form :=
   let '(kind, (inp, obs)) := c in
@@ -231,6 +243,8 @@ Definition clause_of_case (c : nat * (list Z * list Z)) : form :=
       match outcome_of okind code rik nanos w with Some o => shutdown_form t ph items o obs | None => FFalse end
   | 11%nat, [t; _; write_ms; hold_ms; items; okind; code; rik; nanos; w; _] =>
       match outcome_of okind code rik nanos w with Some o => slow_form t write_ms hold_ms items o obs | None => FFalse end
+  | 13%nat, t :: comp :: items :: okind :: code :: rik :: nanos :: w :: _ :: algs =>
+      match outcome_of okind code rik nanos w with Some o => cfg_form algs comp t items o obs | None => FFalse end
   | 7%nat, [a; e; post; ct; body; okind; code; rik; nanos; w] =>
       match outcome_of okind code rik nanos w with Some o => raw_http_form a e post ct body o obs | None => FFalse end
   | 9%nat, [a; body; okind; code; rik; nanos; w] =>
@@ -307,3 +321,4 @@ Definition count_kind (k : nat) (l : list (nat * (list Z * list Z))) : nat :=
 (* the first lines of the dumps on which the model differs from the current code (diagnostics for a broken obligation) *)
 Definition recvhttp_diff := firstn 6 (filter (fun c => negb (check_dump c)) recvhttp_graph).
 Definition errors_diff := firstn 6 (filter (fun c => negb (check_case c)) errors_graph).
+Definition decoders_diff := firstn 6 (filter (fun c => negb (check_case c)) decoders_graph).
